@@ -5,6 +5,7 @@ random header grammar through server.Request with call-recording service methods
 against an httptest server answering every status."""
 import glob, json, os, shutil, tempfile
 import vlib
+from props import _bytes
 
 OBS = ("failure", "status", "ct", "decodes", "receipts", "calls", "direct")
 CHAN = {0: "response with that status", 1: "HTTPError carrying that status", 2: "HTTPError carrying another status",
@@ -99,6 +100,10 @@ def check(run):
                          "describes the code: tie = correspondence only" % tie["mode"])
     if not tie["ok"] and not corr_ok and not run.violations:
         run.violation("tie-broken", "neither the translator tie nor the correspondence holds", dict(log=tie["log"][-1500:]), no_input=True)
+    # byte-level model of request.Decode: the 400 decision on the bytes of the body
+    bstats = _bytes.evaluate(run, wd, "bytes_C20", "request bodies through request.Decode and server.Request with acceptable headers")
+    if bstats:
+        run.cov["bytes_model"] = bstats
     if not env["props_ok"] or not env["coq_ok"]:
         run.violation("proof-broken", "Coq development or Properties_C20.v no longer checks", dict(log=env["props_log"][-1500:]), no_input=True)
     hist = stats["status_histogram"]
@@ -131,6 +136,8 @@ def check(run):
 def replay(path):
     rp = json.load(open(path))
     r = rp.get("replay", rp)
+    if str(rp.get("key", "")).startswith("bytes-model:") and r.get("body_hex") is not None:
+        return _bytes.replay(rp)
     print(json.dumps(rp, indent=1))
     if "content_type" not in r and "client_status" not in r:
         return 0
